@@ -326,6 +326,9 @@ func TestVerif_C14(t *testing.T) {
 	k := verifkit.Start(t, "C14")
 	prop := c14Prop(k)
 	k.Regress(t, func(sub string, raw json.RawMessage) error {
+		if strings.HasPrefix(sub, "os") {
+			return nil // belongs to the OS part
+		}
 		if strings.HasPrefix(sub, "overlapping") {
 			return verifkit.Decode(raw, c14OverlapProp(k))
 		}
